@@ -86,6 +86,13 @@ class Conc:
         except Exception:
             return False
 
+    @staticmethod
+    def _ext(key, step):
+        """class key of a sub-cell: struct field i -> path+(i,), array element -> path+('*',)"""
+        if len(key) == 3 and isinstance(key[2], tuple):
+            return (key[0], key[1], key[2] + (step,))
+        return key + ((step,),)
+
     def cinfo(self, key):
         c = self.classes.get(key)
         if c is None:
@@ -123,10 +130,10 @@ class Conc:
                 self.changed = True
         elif isinstance(v, StructV):
             for i, f in enumerate(v.fields):
-                self.note_value(key + (("f", i),), f)
+                self.note_value(self._ext(key, i), f)
         elif isinstance(v, ArrayV):
             for f in v.elems:
-                self.note_value(key + (("e",),), f)
+                self.note_value(self._ext(key, "*"), f)
         elif isinstance(v, TupleV):
             for i, f in enumerate(v.elems):
                 self.note_value(key + (("t", i),), f)
@@ -167,9 +174,9 @@ class Conc:
         if k in ("pointer", "map", "chan"):
             return self._fresh_ptr(c, name)
         if k == "struct":
-            return StructV([self.fresh_shared(f["type"], key + (("f", i),), name + "." + f["name"]) for i, f in enumerate(d["fields"])])
+            return StructV([self.fresh_shared(f["type"], self._ext(key, i), name + "." + f["name"]) for i, f in enumerate(d["fields"])])
         if k == "array":
-            return ArrayV([self.fresh_shared(d["elem"], key + (("e",),), name + "[]") for _ in range(d["len"])])
+            return ArrayV([self.fresh_shared(d["elem"], self._ext(key, "*"), name + "[]") for _ in range(d["len"])])
         if k == "tuple":
             return TupleV([self.fresh_shared(e, key + (("t", i),), name) for i, e in enumerate(d["elems"])])
         if k == "interface":
@@ -589,6 +596,73 @@ class Conc:
             self.add_event(gg, apply, "wg.%s %s" % (kind, k), pos, visible=True)
         return None, guard
 
+    # --- sync.Pool: Get returns New() or any object previously Put and not handed out since
+    def pool_get(self, ex_, args, guard, pos):
+        ex = self.ex
+        from .models import _struct_field_index, _field_ptr
+        if self.recording is None:
+            return self.orig_pool_get(ex, args, guard, pos)
+        recv = args[0]
+        k = None
+        for g, r in recv.alts:
+            if r is not None:
+                k = r.key()
+        ckey = ("pool", k)
+        c = self.cinfo(ckey)
+        take = ex.fresh_bool("pool.take")
+        pick = ex.fresh_int("pool.pick", 8)
+        rv = self.fresh_shared("any", ckey, "pool%d" % self.recording.idx) if c["ifaces"] else IfaceV.nil()
+        has_cand = bool(c["ifaces"])
+        if not has_cand:
+            ex.assume(b_not(take), True, "")
+
+        def apply(active, k=k, take=take, pick=pick, rv=rv):
+            slots = self.sync_state.get(("pool", k), [])
+            conds = []
+            new_slots = []
+            for i, (pres, val) in enumerate(slots):
+                miss = []
+                ci = b_and(pres, int_cmp("==", pick, i, 8, False), self.veq(rv, val, miss))
+                conds.append(ci)
+                new_slots.append((b_and(pres, b_not(b_and(active, take, int_cmp("==", pick, i, 8, False)))), val))
+            ex.assume(b_implies(b_and(active, take), b_or(*conds)), True, "")
+            self.sync_state[("pool", k)] = new_slots
+        self.add_event(guard, apply, "pool.Get %s" % (k,), pos, visible=True)
+        # the New() path
+        ni = _struct_field_index(ex, "sync.Pool", "New")
+        newf, g2 = ex.load(_field_ptr(recv, ni), b_and(guard, b_not(take)), pos, None, "Pool.New")
+        results = [(b_and(guard, take), rv)]
+        for fg, f, bd in newf.alts:
+            gg = b_and(g2, fg)
+            if gg is False:
+                continue
+            if f is None:
+                results.append((gg, IfaceV.nil()))
+            else:
+                nv, rg = ex.call_function(f, [], gg, bd, pos)
+                results.append((rg, nv))
+        return ex.merge_results(results, ["any"])
+
+    def pool_put(self, ex_, args, guard, pos):
+        ex = self.ex
+        if self.recording is None:
+            return None, guard
+        recv, x = args
+        k = None
+        for g, r in recv.alts:
+            if r is not None:
+                k = r.key()
+        ckey = ("pool", k)
+        self.note_value(ckey, x)
+        self.mark_escaping(x)
+
+        def apply(active, k=k, x=x):
+            slots = list(self.sync_state.get(("pool", k), []))
+            slots.append((active, x))
+            self.sync_state[("pool", k)] = slots
+        self.add_event(guard, apply, "pool.Put %s" % (k,), pos, visible=True)
+        return None, guard
+
     # --- allocation with stable identities across passes
     def alloc(self, kind, tid, val, site=None):
         ex = self.ex
@@ -642,12 +716,67 @@ class Conc:
                 ckey = self.cls_key(ex.heap[r.obj], ()) + (("val",),)
                 self.note_value(ckey, val)
                 self.note_value(self.cls_key(ex.heap[r.obj], ()) + (("key",),), key)
+                self.note_map_key(ex.heap[r.obj], key)
         self.mark_escaping(val)
         self.mark_escaping(key)
 
         def apply(active, m=m, key=key, val=val):
             self.orig_map_update(None, m, key, val, active, pos, None)
         self.add_event(guard, apply, "map update", pos)
+
+    def _key_id(self, k):
+        if isinstance(k, StrV) and k.is_conc():
+            return ("s", k.conc())
+        if isinstance(k, int):
+            return ("i", k)
+        return None
+
+    def note_map_key(self, o, k):
+        c = self.cinfo(self.cls_key(o, ()) + (("keys",),))
+        ks = c.setdefault("keys", {})
+        kid = self._key_id(k)
+        if kid is None:
+            c["symbolic_keys"] = True
+            return
+        if kid not in ks:
+            ks[kid] = k
+            self.changed = True
+
+    def map_range(self, m, guard, kt, et):
+        """range over a shared map while recording: one atomic snapshot event over the candidate keys of the map class"""
+        ex = self.ex
+        ents = []
+        for g, r in m.alts:
+            if r is None:
+                continue
+            o = ex.heap[r.obj]
+            gg = b_and(guard, g)
+            if not self.is_shared(o):
+                for k, v, p in o.val.entries:
+                    ents.append((k, v, b_and(g, p)))
+                continue
+            c = self.cinfo(self.cls_key(o, ()) + (("keys",),))
+            if c.get("symbolic_keys"):
+                raise Unsupported("range over a shared map with symbolic keys")
+            vkey = self.cls_key(o, ()) + (("val",),)
+            slots = []
+            for kid, k in sorted(c.get("keys", {}).items(), key=lambda x: repr(x[0])):
+                pres = ex.fresh_bool("rng.present")
+                rv = self.fresh_shared(et, vkey, "rng%d" % self.recording.idx)
+                slots.append((k, rv, pres))
+                ents.append((k, rv, b_and(g, pres)))
+
+            def apply(active, o=o, slots=slots, vkey=vkey):
+                mv = o.val
+                for k, rv, pres in slots:
+                    val, f = self.orig_map_lookup(Ptr.to(o.id), k, active, et)
+                    miss = []
+                    e = self.veq(rv, val, miss)
+                    ex.assume(b_implies(active, b_and(b_eq(pres, f), b_implies(f, e))), True, "")
+                    for g_, kd, x in miss:
+                        self.cand_missing.append((b_and(active, f, g_), kd, x, vkey))
+            self.add_event(gg, apply, "map range snapshot o%d" % o.id, None)
+        return ents
 
     def map_delete(self, m, key, guard):
         ex = self.ex
@@ -734,6 +863,10 @@ class Conc:
         ex.map_delete = self.map_delete
         ex.map_len = self.map_len
         ex.yield_hook = self.yield_hook
+        from . import models as _m
+        self.orig_pool_get = _m.m_pool_get
+        ex.pool_get_hook = self.pool_get
+        ex.pool_put_hook = self.pool_put
         ex.conc = self
 
     def yield_hook(self, guard, pos):
@@ -751,6 +884,7 @@ class Conc:
                 for k, v, p in o.val.entries:
                     self.note_value(self.cls_key(o, ()) + (("val",),), v)
                     self.note_value(self.cls_key(o, ()) + (("key",),), k)
+                    self.note_map_key(o, k)
             elif o.kind == "chan" and isinstance(o.val, ChanVal):
                 for v in o.val.buf:
                     self.note_value(self.cls_key(o, ()) + (("elem",),), v)
@@ -840,6 +974,7 @@ class Conc:
                 prev = v
             wins.append(row)
         self.windows = wins
+        self.trace = []
         self.replaying = True
         for r in range(R):
             for t, th in enumerate(self.threads):
@@ -849,6 +984,7 @@ class Conc:
                     active = b_and(e.guard, inw)
                     if active is False:
                         continue
+                    self.trace.append((r, th.name, e, active))
                     e.apply(active)
         self.replaying = False
         # executed(t, seg): segment seg of thread t ran in some round
@@ -902,3 +1038,16 @@ def p_thread_done(ex, args, guard, pos):
     if not isinstance(i, int):
         raise Unsupported("vThreadDone: index must be concrete")
     return c.done_guards[i], guard
+
+
+def schedule_of(ex, model):
+    """concrete interleaving (executed events in order) under a solver model"""
+    c = getattr(ex, "conc", None)
+    if c is None or not getattr(c, "trace", None):
+        return None
+    out = []
+    for r, tname, e, active in c.trace:
+        a = active if isinstance(active, bool) else z3.is_true(model.eval(active, model_completion=True))
+        if a:
+            out.append("r%d %s seg%d: %s%s" % (r, tname, e.seg, e.desc, (" @" + str(e.pos).replace("/repo/", "")) if e.pos else ""))
+    return out
